@@ -10,6 +10,7 @@ import (
 	"sync"
 
 	"github.com/feichai0017/NoKV/manifest"
+	"github.com/feichai0017/NoKV/verifhook"
 	"github.com/feichai0017/NoKV/vfs"
 )
 
@@ -85,6 +86,8 @@ func (s *LocalStore) SaveAllocatorState(idCurrent, tsCurrent uint64) error {
 	if s == nil {
 		return nil
 	}
+	verifhook.Yield(s, "pd.save.enter")
+	verifhook.BeforeLock(&s.stateMu)
 	s.stateMu.Lock()
 	defer s.stateMu.Unlock()
 
